@@ -16,7 +16,7 @@ TEXT = {
  "C06": ("step_error_unchanged: for every record, operation and oracle answer (including signer failure and signatures of any length) an error leaves the record equal to the one before. Tie: hist/size families with fault-injecting keys and the toy scheme; before/after comparison of all fields and the encoding on the implementation.",
          "The model mirrors the clone-and-commit structure of the code; the tie is what detects in-place mutation."),
  "C07": ("step_seq_succ, step_setSeq_exact, step_no_wrap (never Ok at 2^64-1, error kind characterised), u64 round trip. Tie: hist/size/acc/dec from every boundary sequence number, with quiet steps (nothing reads the record's bytes between two updates), with and without debug assertions; the number through bytes and text after every step.", ""),
- "C08": ("Content equations for every mutator and the builder against the sorted association-list model, untouched-keys theorem, return values, error causes; C08_admissible_sound: the set of error kinds the runtime monitor admits contains the error the model step returns, for every record, operation and signer outcome. Tie: the model IS the plain sorted map; pairs and return values are compared after every step, error kinds against the admissible set.",
+ "C08": ("Content equations for every mutator and the builder against the sorted association-list model, untouched-keys theorem, return values, error causes; C08_admissible_sound / C08_build_admissible_sound: the set of error kinds the runtime monitor admits contains the error the model step (the model build) returns, for every record, operation, builder and signer outcome. Tie: the model IS the plain sorted map; pairs and return values are compared after every step, error kinds against the admissible set.",
          "Error kinds are compared against the set of causes that actually hold for the call (so a harmless reordering of independent checks raises no alarm); a kind outside that set is reported."),
  "C09": ("size = encoding length (rfl), size <= 300 after build/update/decode, refusal_sound / refusal_complete / refusal_exact (an update that reaches the signer is refused iff the signed result exceeds 300 bytes, any signature length), precedence at seq 2^64-1, builder: refuses everything over 300 and only within the proven slack (build_exceeds_iff). Tie: size family sweeping result sizes across the limit with growing sequence numbers for every mutator and key type, toy scheme for variable signature lengths.", ""),
  "C10": ("nodeId_spec for decoded, built and updated records, accessor agreement, same-key stability, dependence on the public-key entry only. Tie: the expected id is recomputed by the Lean Keccak and curve code from the raw public-key entry of every observed record; ck family derives keys from edge-case scalars.", ""),
